@@ -1,6 +1,8 @@
 use rscel_macro::dispatch;
 
 pub use methods::dispatch as duration_impl;
+#[cfg(feature = "verif_hooks")]
+pub use methods::verif_inner;
 
 #[dispatch]
 mod methods {
@@ -23,5 +25,13 @@ mod methods {
         let nanos =
             u32::try_from(nanos).map_err(|_| CelError::value("Invalid argument for duration"))?;
         Duration::new(seconds, nanos).ok_or_else(|| CelError::value("Invalid argument for duration"))
+    }
+
+    /// Forwarders to the typed overloads, for the external verification harness.
+    #[cfg(feature = "verif_hooks")]
+    pub mod verif_inner {
+        use crate::CelResult;
+        pub fn secs_nanos(seconds: i64, nanos: i64) -> CelResult<chrono::Duration> { super::duration_iir(seconds, nanos) }
+        pub fn secs(arg: i64) -> CelResult<chrono::Duration> { super::duration_ir(arg) }
     }
 }
